@@ -41,10 +41,14 @@ Section Rules.
   Theorem unknown_flag_rejected a r flags pos :
     let l := short_to_long a in
     String.eqb l "--" = false -> in_list l CLI_FLAGS = false ->
-    prefix "--throttle" l = false -> prefix "--init" l = false ->
+    prefix "--throttle" l = false -> prefix "--init=" l = false ->
     prefix "-" l = true -> Nat.ltb 1 (String.length l) = true ->
     scan (a :: r) false flags pos = inl ("Unrecognized flag: " ++ a).
   Proof. intros l H1 H2 H3 H4 H5 H6. cbn [scan]. fold l. rewrite H1, H2, H3, H4, H5, H6. reflexivity. Qed.
+
+  (* in particular a flag that merely begins with --init (defect D54: `--initx` used to be taken for `--init=`) *)
+  Example initx_rejected r flags pos : scan ("--initx" :: r) false flags pos = inl "Unrecognized flag: --initx".
+  Proof. reflexivity. Qed.
 
   (* a --throttle value that is not a decimal number is refused, in both syntaxes *)
   Theorem bad_throttle_rejected v r flags pos : parse_throttle v = None ->
